@@ -17,7 +17,7 @@ import (
 	"golang.org/x/tools/go/ssa/ssautil"
 )
 
-const repoDir = "/repo"
+var repoDir = "/repo" // GOSYM_REPO overrides (development only: scratch worktrees)
 
 var verifDir = "/verif"
 
@@ -189,6 +189,9 @@ func loadKnown(path string) []knownEntry {
 }
 
 func main() {
+	if d := os.Getenv("GOSYM_REPO"); d != "" {
+		repoDir = d
+	}
 	// the repository needs the newer toolchain (go.mod has a tool block)
 	os.Setenv("PATH", "/opt/veriftools/go1.26.8/bin:"+os.Getenv("PATH"))
 	os.Setenv("GOTOOLCHAIN", "local")
